@@ -58,35 +58,49 @@ Theorem C33_no_panic_outside_recover_refuted : ~ C33_no_panic_outside_recover_fu
 Proof. intros H. exact (H cfg0 pool_w hist_overrun overrun_mem_ok overrun_crashes). Qed.
 Print Assumptions C33_no_panic_outside_recover_refuted.
 
-(** partial (guard: boolean [fits_hist]): when groups fit, no history crashes *)
+(** partial (guards: validation not disabled, boolean [fits_hist]): when groups
+    fit, no history crashes *)
 Theorem C33_no_panic_outside_recover_partial : forall c p0 evs,
+  c_noval c = false ->
   forallb (mem_ok c) evs = true -> fits_hist p0 evs = true -> run c init p0 evs <> None.
 Proof. exact no_crash_when_groups_fit. Qed.
 Print Assumptions C33_no_panic_outside_recover_partial.
 
+(** the first guard is needed: with disableValidation the validator is nil and
+    the pending loop dies right after handing over a block it completed - an
+    honest history, the group fits *)
+Theorem C33_partial_needs_validation :
+  forallb (mem_ok cfg_noval) hist_fits = true /\ fits_hist [] hist_fits = true
+  /\ run cfg_noval init [] hist_fits = None.
+Proof. exact noval_crashes. Qed.
+Print Assumptions C33_partial_needs_validation.
+
 Theorem C33_partial_guard_example :
-  forallb (mem_ok cfg0) hist_fits = true /\ fits_hist [] hist_fits = true
+  c_noval cfg0 = false /\ forallb (mem_ok cfg0) hist_fits = true /\ fits_hist [] hist_fits = true
   /\ run cfg0 init [] hist_fits <> None.
-Proof. split; [|split]; try (vm_compute; reflexivity). vm_compute. discriminate. Qed.
+Proof. split; [|split; [|split]]; try (vm_compute; reflexivity). vm_compute. discriminate. Qed.
 Print Assumptions C33_partial_guard_example.
 
-(** every crash of every history is one of the two recorded ones: the group
-    overrun in an iteration of the pending loop, or the out-of-memory abort at
-    the arrival of a light block whose TxCount is in the window; in particular
-    sTxHashes[i] can never be out of range in the loop *)
+(** every crash of every history is one of the three recorded ones: the group
+    overrun in an iteration of the pending loop, the out-of-memory abort at the
+    arrival of a light block whose TxCount is in the window, or (validation
+    disabled) the nil validator in the loop; in particular sTxHashes[i] can
+    never be out of range in the loop *)
 Theorem C33_crash_characterisation : forall c p0 evs,
   run c init p0 evs = None ->
   exists pre ev post st p,
     evs = pre ++ ev :: post /\ run c init p0 pre = Some (st, p)
-    /\ (group_overrun_in_loop c st p ev \/ oom_on_arrival c st p ev).
+    /\ (group_overrun_in_loop c st p ev \/ oom_on_arrival c st p ev \/ nil_validator_in_loop c st p ev).
 Proof. exact crash_characterisation. Qed.
 Print Assumptions C33_crash_characterisation.
 
 (** in every reachable state one iteration of pendBlockLoop completes or
-    panics at pd.block.Txs[index+j] = gtx, nowhere else *)
+    panics at pd.block.Txs[index+j] = gtx or (validation disabled) at
+    p.val.addBroadcastMsg, nowhere else *)
 Theorem C33_loop_panics_only_at_group_expansion : forall c p0 evs st p now,
   run c init p0 evs = Some (st, p) ->
-  tick_raw c p now st <> Fatal /\ (forall w, tick_raw c p now st = Panic w -> w = W_GROUP).
+  tick_raw c p now st <> Fatal
+  /\ (forall w, tick_raw c p now st = Panic w -> w = W_GROUP \/ (c_noval c = true /\ w = W_NILVAL)).
 Proof. exact tick_only_group. Qed.
 Print Assumptions C33_loop_panics_only_at_group_expansion.
 
